@@ -87,6 +87,17 @@ def handle (cmd : String) (args : List String) : Option String :=
   | "ck.merge_prev", [pf, prev] => do
     let pf ← parseInt? pf; let prev ← parseIntList? prev
     pure ("ok " ++ fmtIntList (mergePrev pf prev))
+  | "ck.prev1d_reduce", [pf, ex, prev, n] => do
+    -- one auto axis, `previous_chunks` given, `round_to(proposed, ideal_shape)` branch:
+    -- `ideal` and the returned layout `blockdims_from_blockshape((n,), (round_to(proposed, ideal),))`
+    let pf ← pf.toNat?; let ex ← parseBool? ex; let prev ← parseIntList? prev; let n ← parseInt? n
+    let ideal := idealAxis prev n
+    match roundToF pf ex ideal with
+    | .error e => pure (fmtErr e)
+    | .ok c =>
+      match blockdim n c with
+      | .ok r => pure s!"ok {ideal} {fmtIntList r}"
+      | .error e => pure (fmtErr e)
   | "ck.ideal", [prev, s] => do
     let prev ← parseIntList? prev; let s ← parseInt? s
     pure s!"ok {idealAxis prev s}"
